@@ -2,6 +2,7 @@
    real implementation, runs the extracted model ([Model.apply_action], [Model.succs]) and
    checks that every observed round is one of the model's quiescent behaviours.
    Only the extracted step functions are used to move between states. *)
+type str = string
 open Model
 
 let rec nat_of_int n = if n <= 0 then O else S (nat_of_int (n - 1))
@@ -101,7 +102,7 @@ let s_result = function ROk v -> "ok" ^ string_of_n v | RErr ESend -> "send" | R
   | RErr ETimeout -> "timeout" | RCancelled -> "cancelled"
 
 (* a view is a list of lines; a line is a key and a list of tokens *)
-type vline = string * string list
+type vline = str * str list
 
 let render (fe : feats) (v : view) : vline list =
   let alines = List.mapi (fun a (av : aview) ->
@@ -149,7 +150,7 @@ let proj_table = [
   "C18", ["id="; "up="; "alive="; "join="; "jk="; "jph="; "jerr="; "jst="; "e:"; "r="; "d:"];
   "C20", ["mc="; "e:HE"; "join="];
 ]
-let project (prefixes : string list) (v : vline list) : vline list =
+let project (prefixes : str list) (v : vline list) : vline list =
   List.sort (fun (a, _) (b, _) -> compare a b) @@
   List.map (fun (k, toks) -> (k, List.filter (fun t -> List.exists (fun p -> starts p t) prefixes) toks)) v
 
@@ -215,6 +216,51 @@ let result_table () =
   List.iter (fun (n, e) -> Printf.printf "retryable %s %s\n" n (s_bool (is_retryable e)))
     ["send", ESend; "recv", EReceive; "timeout", ETimeout]
 
+(* ---------- macro decision table (C19) ---------- *)
+let coq_string (t : str) : Model.string =
+  let ascii_of c =
+    let n = Char.code c in let b i = (n lsr i) land 1 = 1 in
+    Ascii (b 0, b 1, b 2, b 3, b 4, b 5, b 6, b 7) in
+  let rec go i = if i >= String.length t then EmptyString else String (ascii_of t.[i], go (i + 1)) in
+  go 0
+
+let split_str sep s =
+  (* split on a multi-character separator *)
+  let n = String.length sep in
+  let rec go acc i j =
+    if j + n > String.length s then List.rev (String.sub s i (String.length s - i) :: acc)
+    else if String.sub s j n = sep then go (String.sub s i (j - i) :: acc) (j + n) (j + n)
+    else go acc i (j + 1) in
+  go [] 0 0
+
+let macro_decide file =
+  List.iter (fun l ->
+      match words l with
+      | [id; attr; ret] ->
+          let a =
+            if attr = "path" then Some AfPath
+            else if attr = "namevalue" then Some AfNameValue
+            else if starts "list:" attr then
+              let body = String.sub attr 5 (String.length attr - 5) in
+              let opts = List.filter (fun w -> w <> "") (split_on ',' body) in
+              Some (AfList (List.map (function "result" -> OResult | "no_log" -> ONoLog | _ -> OUnknown) opts))
+            else None in
+          let r =
+            if ret = "none" then RtNone else if ret = "ref" then RtRef else if ret = "tuple" then RtTuple
+            else if ret = "other" then RtOther
+            else if starts "path:" ret then
+              RtPath (List.map coq_string (split_str "::" (String.sub ret 5 (String.length ret - 5))))
+            else RtOther in
+          (match a with
+           | None -> Printf.printf "%s skip\n" id
+           | Some a ->
+               (match decide a r with
+                | CompileError -> Printf.printf "%s error\n" id
+                | Impl (r', logs) ->
+                    Printf.printf "%s impl reply_unit=%d logs_err=%d\n" id
+                      (match r' with RtNone -> 1 | _ -> 0) (if logs then 1 else 0)))
+      | _ -> ()) (read_lines file)
+
 let config_model arg =
   let ns = if arg = "-" then [] else List.map (fun w -> nat_of_int (int_of_string w)) (split_on ',' arg) in
   let (c, rs) = run_sets ns None in
@@ -224,6 +270,7 @@ let config_model arg =
 let () =
   if Array.length Sys.argv > 1 && Sys.argv.(1) = "--result-table" then (result_table (); exit 0);
   if Array.length Sys.argv > 2 && Sys.argv.(1) = "--config" then (config_model Sys.argv.(2); exit 0);
+  if Array.length Sys.argv > 2 && Sys.argv.(1) = "--macro" then (macro_decide Sys.argv.(2); exit 0);
   let script = ref "" and observed = ref "" and proj = ref "full" and dump = ref false in
   Arg.parse [ "--script", Arg.Set_string script, "script file";
               "--observed", Arg.Set_string observed, "observed views";
